@@ -199,6 +199,7 @@ package jws
 //@     (exists h *jwsProtectedHeader :: HeaderOf(h, B64(m.Protected)) && SchemeRules(h) && CritRules(h) && SignedAttrsOf(fieldptr(c, SignerInfo), h)) }
 
 //@ func (*envelope).Content(e)
+//@   refines (signature.Envelope).Content except meaning
 //@   props C01 C07 C13
 //@   requires e != nil
 //@   ensures [none] e.base == nil ==> result == nil && typeof(err) == type(*signature.SignatureEnvelopeNotFoundError)
@@ -208,6 +209,7 @@ package jws
 
 // stmt C01 (JWS): verification succeeds only if the carried compact token verifies under the leaf key
 //@ func (*envelope).Verify(e)
+//@   refines (signature.Envelope).Verify except meaning
 //@   props C01 C02
 //@   requires e != nil
 //@   ensures [none] e.base == nil ==> result == nil && typeof(err) == type(*signature.SignatureEnvelopeNotFoundError)
@@ -368,6 +370,7 @@ package jws
 //@     (forall k string :: has(m, k) <==> JKey(data, k)) && (forall k string :: JKey(data, k) ==> typeof(m[k]) == type(json.RawMessage) && unbox(m[k], type(json.RawMessage)) == JRaw(data, k)) }
 // stmt C16/C20/C08 (JWS): Sign meets the interface contract of signature.Envelope; the message is replaced only on success
 //@ func (*envelope).Sign(e, req)
+//@   refines (signature.Envelope).Sign
 //@   props C08 C15 C16 C20
 //@   requires e != nil && req != nil && req.Signer != nil
 //@   modifies e.base
